@@ -12,19 +12,20 @@ namespace DastardV.Trig
 /-! ### single-channel run -/
 
 /-- one block for one channel: append, trigger, trim; returns the primary trigger frames -/
-def stepChan (zt : ZT) (c : Chan) (seg : List Nat) (first per : Int) (sg : Bool) : Option (Chan × List Int) :=
-  match triggerData (append c seg first 0 per sg) zt with
+def stepChan (zt : ZT) (c : Chan) (seg : List Nat) (first t0 per : Int) (sg : Bool) : Option (Chan × List Int) :=
+  match triggerData (append c seg first t0 per sg) zt with
   | none => none
   | some (c', recs) => some (trim c', recs.map (·.frame))
 
-/-- feed consecutive blocks, contiguous in frame number starting at `first` -/
-def runChan (zt : ZT) (per : Int) (sg : Bool) : Chan → Int → List (List Nat) → Option (Chan × List Int)
-  | c, _, [] => some (c, [])
-  | c, first, seg :: segs =>
-    match stepChan zt c seg first per sg with
+/-- feed consecutive blocks, contiguous in frame number starting at `first`; block number `n` (counted
+from the argument `n`) carries the time stamp and frame period `tp n` -/
+def runChan (zt : ZT) (tp : Nat → Int × Int) (sg : Bool) : Nat → Chan → Int → List (List Nat) → Option (Chan × List Int)
+  | _, c, _, [] => some (c, [])
+  | n, c, first, seg :: segs =>
+    match stepChan zt c seg first (tp n).1 (tp n).2 sg with
     | none => none
     | some (c1, tr) =>
-      match runChan zt per sg c1 (first + seg.length) segs with
+      match runChan zt tp sg (n + 1) c1 (first + seg.length) segs with
       | none => none
       | some (c2, tr2) => some (c2, tr ++ tr2)
 
@@ -136,10 +137,10 @@ theorem autoPass_off {c : Chan} (h : c.ts.auto = false) (found : List Int) : aut
 set_option maxHeartbeats 1600000 in
 /-- one block preserves the invariant -/
 theorem stepChan_inv {ts : TS} {npre nsamp : Int} {sg : Bool} {e0 : Nat} {G : List Nat} {f0 : Int} {c : Chan}
-    {trigs : List Int} {k : Nat} {zt : ZT} {seg : List Nat} {per : Int} {c1 : Chan} {tr : List Int}
+    {trigs : List Int} {k : Nat} {zt : ZT} {seg : List Nat} {t0 per : Int} {c1 : Chan} {tr : List Int}
     (hv : 3 ≤ npre ∧ npre < nsamp) (hem : ts.edgeMulti = false) (hedge : ts.edge = true)
     (hinv : EdgeInv ts npre nsamp sg e0 G f0 c trigs k)
-    (h : stepChan zt c seg (f0 + G.length) per sg = some (c1, tr)) :
+    (h : stepChan zt c seg (f0 + G.length) t0 per sg = some (c1, tr)) :
     ∃ k', EdgeInv ts npre nsamp sg e0 (G ++ seg) f0 c1 (trigs ++ tr) k' := by
   obtain ⟨hk, hbuf, hcfg, hcov, hbef, hlast, hret, hsound, hspaced, hnewest⟩ := hinv
   obtain ⟨hts, hnpre, hnsamp, hsync, _⟩ := hcfg
@@ -150,7 +151,7 @@ theorem stepChan_inv {ts : TS} {npre nsamp : Int} {sg : Bool} {e0 : Nat} {G : Li
   simp only [Option.some.injEq, Prod.mk.injEq] at h
   obtain ⟨hc1, htr⟩ := h
   -- the channel after append
-  generalize hca : append c seg (f0 + ↑G.length) 0 per sg = ca at htd
+  generalize hca : append c seg (f0 + ↑G.length) t0 per sg = ca at htd
   have ca_buf : ca.buf = (G ++ seg).drop k := by
     rw [← hca]; simp [append, hbuf, List.drop_append_of_le_length hk]
   have ca_first : ca.first = f0 + k := by
@@ -359,17 +360,17 @@ theorem stepChan_inv {ts : TS} {npre nsamp : Int} {sg : Bool} {e0 : Nat} {G : Li
         omega
 
 /-- any number of blocks of any lengths -/
-theorem runChan_inv {ts : TS} {npre nsamp : Int} {sg : Bool} {e0 : Nat} {f0 : Int} {zt : ZT} {per : Int}
+theorem runChan_inv {ts : TS} {npre nsamp : Int} {sg : Bool} {e0 : Nat} {f0 : Int} {zt : ZT} {tp : Nat → Int × Int}
     (hv : 3 ≤ npre ∧ npre < nsamp) (hem : ts.edgeMulti = false) (hedge : ts.edge = true) :
-    ∀ (segs : List (List Nat)) (G : List Nat) (c : Chan) (trigs : List Int) (k : Nat) (c' : Chan) (tr : List Int),
+    ∀ (segs : List (List Nat)) (n : Nat) (G : List Nat) (c : Chan) (trigs : List Int) (k : Nat) (c' : Chan) (tr : List Int),
       EdgeInv ts npre nsamp sg e0 G f0 c trigs k →
-      runChan zt per sg c (f0 + G.length) segs = some (c', tr) →
+      runChan zt tp sg n c (f0 + G.length) segs = some (c', tr) →
       ∃ k', EdgeInv ts npre nsamp sg e0 (G ++ segs.flatten) f0 c' (trigs ++ tr) k'
-  | [], G, c, trigs, k, c', tr, hinv, h => by
+  | [], n, G, c, trigs, k, c', tr, hinv, h => by
     simp only [runChan, Option.some.injEq, Prod.mk.injEq] at h
     obtain ⟨rfl, rfl⟩ := h
     exact ⟨k, by simpa using hinv⟩
-  | seg :: segs, G, c, trigs, k, c', tr, hinv, h => by
+  | seg :: segs, n, G, c, trigs, k, c', tr, hinv, h => by
     unfold runChan at h
     split at h
     · simp at h
@@ -382,7 +383,7 @@ theorem runChan_inv {ts : TS} {npre nsamp : Int} {sg : Bool} {e0 : Nat} {f0 : In
     obtain ⟨k1, hinv1⟩ := stepChan_inv hv hem hedge hinv hstep
     have hlen : f0 + (G.length : Int) + (seg.length : Int) = f0 + ((G ++ seg).length : Int) := by simp; omega
     rw [hlen] at hrun
-    obtain ⟨k2, hinv2⟩ := runChan_inv hv hem hedge segs (G ++ seg) c1 (trigs ++ tr1) k1 c2 tr2 hinv1 hrun
+    obtain ⟨k2, hinv2⟩ := runChan_inv hv hem hedge segs (n + 1) (G ++ seg) c1 (trigs ++ tr1) k1 c2 tr2 hinv1 hrun
     refine ⟨k2, ?_⟩
     simpa [List.append_assoc] using hinv2
 
